@@ -120,6 +120,48 @@ pub fn cmd(_args: &[String]) {
             verif::set_stress(stress);
         }
         crate::common::LAST_PANIC_LOC.with(|c| c.borrow_mut().clear());
+        // resource limits (fresh VMs only make sense here) and event recording
+        let stack_limit = job.get("stack_limit").and_then(|v| v.as_u64());
+        let memory_limit = job.get("memory_limit").and_then(|v| v.as_u64());
+        let memory_limit_rel = job.get("memory_limit_rel").and_then(|v| v.as_u64());
+        let want_events = job.get("events").and_then(|v| v.as_str()).map(|s| s.to_string());
+        let interrupt_ms = job.get("interrupt_ms").and_then(|v| v.as_u64());
+        if let Some(pre) = job.get("warmup").and_then(|v| v.as_str()) {
+            // compile / load what the program needs before limits and recording start
+            let vm = entry.0.clone();
+            let _ = catch_unwind(AssertUnwindSafe(|| run_any(&vm, "warmup", pre)));
+            host::clear();
+        }
+        {
+            let vm = entry.0.clone();
+            if let Some(l) = stack_limit {
+                vm.context().set_max_stack_size(l as u32);
+            }
+            if want_events.is_some() {
+                vm.collect();
+            }
+            if let Some(l) = memory_limit {
+                vm.set_memory_limit(l as usize);
+            }
+            if let Some(l) = memory_limit_rel {
+                vm.set_memory_limit(vm.allocated_memory() + l as usize);
+            }
+        }
+        let base_info = entry.0.verif_stack_info();
+        verif::take_peak(0);
+        if want_events.is_some() {
+            let _ = verif::take_events();
+            verif::set_events(true);
+        }
+        let interrupter = interrupt_ms.map(|ms| {
+            let vm = entry.0.clone();
+            std::thread::spawn(move || {
+                std::thread::sleep(std::time::Duration::from_millis(ms));
+                vm.interrupt();
+            })
+        });
+        let started = std::time::Instant::now();
+        let instr0 = verif::instructions();
         // modules the program imports: [[name, source], ...] registered with load_script semantics (add_module)
         let mut module_err = None;
         if let Some(mods) = job.get("modules").and_then(|v| v.as_array()) {
@@ -163,6 +205,26 @@ pub fn cmd(_args: &[String]) {
             _ => run_source(&entry.0, "prog", src, bytecode),
         } };
         verif::set_stress(0);
+        verif::set_events(false);
+        let elapsed_ms = started.elapsed().as_millis() as u64;
+        let instructions = verif::instructions() - instr0;
+        if let Some(h) = interrupter {
+            let _ = h.join();
+        }
+        let mut events: Vec<Value> = Vec::new();
+        if let Some(kind) = &want_events {
+            events.push(json!({"ev": "base", "frames": base_info.0, "slen": base_info.1, "before": base_info.2}));
+            for line in verif::take_events() {
+                if let Ok(v) = serde_json::from_str::<Value>(&line) {
+                    let ev = v["ev"].as_str().unwrap_or("");
+                    let is_gc = matches!(ev, "alloc" | "free" | "oom" | "collect_begin" | "collect_end");
+                    if (kind == "frames" && !is_gc) || (kind == "gc" && is_gc) || kind == "all" {
+                        events.push(v);
+                    }
+                }
+            }
+        }
+        let after_info = if status == "panic" { (0, 0, 0, 0, 0) } else { entry.0.verif_stack_info() };
         let log: Vec<i64> = host::take_log().into_iter().filter(|e| e.0 == -2).map(|e| e.2).collect();
         let loc = crate::common::LAST_PANIC_LOC.with(|c| c.borrow().clone());
         if status != "ok" {
@@ -174,7 +236,9 @@ pub fn cmd(_args: &[String]) {
             }
         }
         json!({"id": job["id"], "status": status, "value": value, "type": typ, "msg": msg, "class": error_class(&msg),
-               "log": log, "panic_at": loc})
+               "log": log, "panic_at": loc, "events": events, "elapsed_ms": elapsed_ms, "instructions": instructions,
+               "frames": after_info.0, "slen": after_info.1, "allocated": after_info.2, "limit": after_info.3,
+               "peak": verif::take_peak(0)})
     });
     for (_, (vm, _)) in vms.drain() {
         std::mem::forget(vm);
